@@ -75,3 +75,14 @@ Proof.
   unfold final. induction h as [|c h IH]; intros s Hwf Hs; cbn [fold_left]; [exact Hs|].
   inversion Hwf as [|? ? Hc Hh]; subst. apply IH; [exact Hh|]. apply rp_step_range; assumption.
 Qed.
+
+(* the counter is the big-endian reading of bytes 33..36: positional weights written out *)
+Lemma be_int4 b0 b1 b2 b3 : be_int [b0; b1; b2; b3] = b0 * 2 ^ 24 + b1 * 2 ^ 16 + b2 * 2 ^ 8 + b3.
+Proof. unfold be_int. cbn [be_int_acc]. lia. Qed.
+
+Theorem counter_big_endian v ad b0 b1 b2 b3 : parse_auth_data v = Ok ad ->
+  slice 33 37 v = [b0; b1; b2; b3] ->
+  ad_count ad = b0 * 2 ^ 24 + b1 * 2 ^ 16 + b2 * 2 ^ 8 + b3.
+Proof.
+  intros H Hs. apply parse_auth_data_header in H as (_ & _ & _ & Hc). rewrite Hc, Hs. apply be_int4.
+Qed.
